@@ -78,6 +78,12 @@ CLAIMED["C16"] = dict(
     note=TB_COMMON + "argparse semantics, the interpreter's exit status for an uncaught exception, json and the file system are contracts observed through the runs, not modelled.",
     ref="DESIGN.md 4 C16")
 
+CLAIMED["C06"] = dict(
+    technique="Lean 4 equivariance theorems (renaming, permutation) for the split, eligibility, worklist, matrix exponential and assembly models; metamorphic differential runs of the real analysis on transformed twins",
+    text="Proof: classify_rename_invariant (any injective renaming leaves every term's bucket unchanged), eligible_perm_invariant + C03.verdict_perm_invariant (the analytic set does not depend on entry order), P_perm_equivariant (exp of the re-ordered matrix is the re-ordered exp), assemble_perm_ok (re-ordering never turns success into an error) and evalRow_perm_equivariant (update maps agree up to the permutation), chain_row_is_unit (a chain of first-order equations yields the same unit rows as an n-th order equation). Tie/search: permuted, renamed and re-formulated (function of time / n-th order / first-order chain) twins are analysed by the real code; success, analytic sets, update maps and initial values compared as values at corresponding random points.",
+    note=TB_COMMON + "That SymPy itself is insensitive to symbol names and ordering, and the function-of-time <-> ODE correspondence (C05), enter through the metamorphic runs, not through theorems.",
+    ref="DESIGN.md 4 C06")
+
 NOT_YET = {}
 
 def main():
